@@ -41,7 +41,7 @@ class GlueEngine:
 
     def run(self, name, cfile, defs=(), unwind=8, unwindset=None, checks="default", common=("glue.c", "vf_main.c", "libc_models.c"),
             replace=None, malloc_may_fail=False, exclude=None, only=None, extra_flags=(), timeout=None, replay=True,
-            native_extra=(), replay_fn=None, ignore_props=(), remove_bodies=()):
+            native_extra=(), replay_fn=None, ignore_props=(), remove_bodies=(), hunt=None):
         res = {"name": name, "text": cfile + " " + " ".join(defs), "status": None, "wall": 0.0, "failed": [], "detail": "",
                "inputs": None, "replay": None}
         defs = list(defs)
@@ -73,15 +73,40 @@ class GlueEngine:
             if m:
                 big = max(big, int(m.group(2)) + 8)
         big = max(big, 72, getattr(self, 'min_harness_bound', 0))
+        harness_loops = set()
         for lp in core.show_loops(gb):
             fn = lp.rsplit(".", 1)[0]
             names = ("harness", "glue_fill", "split_text", "check_layout", "expected", "vf_copy", "os_fill", "copy_shadow", "frame", "rec_check", "any_line", "stub_line_to_instr")
-            if any(fn == x or fn.endswith("_c_" + x) for x in names) and lp not in uw:
-                uw[lp] = big
+            if any(fn == x or fn.endswith("_c_" + x) for x in names):
+                harness_loops.add(lp)
+                if lp not in uw:
+                    uw[lp] = big
         t0 = time.time()
         flags = list(extra_flags)
         if malloc_may_fail:
             flags += ["--malloc-may-fail", "--malloc-fail-null"]
+        if hunt:
+            # bug-hunting pre-pass: shallow unwinding, no unwinding assertions.  Only a violation it finds is used
+            # (and only if it replays natively); otherwise the full query below decides.  It exists so that a
+            # broken tree is reported in seconds where the full unwinding of the broken code would take very long.
+            hu = dict(uw)
+            for k in hu:
+                if hu[k] > hunt["cap"] and k not in harness_loops and not any(x in k for x in hunt.get("keep", ())):
+                    hu[k] = hunt["cap"]
+            hv = core.run_cbmc(gb, unwind=min(unwind or hunt["cap"], hunt["cap"]), unwindset=hu, timeout=hunt.get("timeout", 120), checks=checks,
+                               malloc_may_fail=malloc_may_fail, flags=flags, unwinding_assertions=False, trace=True)
+            if hv.status == "ok":
+                hwit = [p for p in hv.props if hv.props[p][1].startswith("WITNESS")]
+                hbad = [p for p in hv.failed if p not in hwit and not any(re.search(ig, p + " " + hv.props[p][1]) for ig in ignore_props)]
+                for p0 in hbad[:2]:
+                    if p0 not in hv.traces:
+                        continue
+                    rin = hv.traces[p0]
+                    rp = replay_fn(self, tag, cfile, defs, rin, res) if replay_fn is not None else self.replay(tag, cfile, defs, rin, common, native_extra)
+                    if rp["reproduced"]:
+                        res.update(inputs=rin, replay=rp, status="violated", failed=[(p0, hv.props[p0][1])], wall=time.time() - t0,
+                                   detail="found by the bug-hunting pre-pass (shallow unwinding), replayed natively")
+                        return res
         v = core.run_cbmc(gb, unwind=unwind, unwindset=uw, timeout=timeout or self.timeout, checks=checks,
                           malloc_may_fail=malloc_may_fail, flags=flags)
         res["wall"] = time.time() - t0
@@ -105,27 +130,32 @@ class GlueEngine:
         if not bad:
             res["status"] = "held"
             return res
+        # the harness's own checks first, then CBMC's built-in ones
+        bad.sort(key=lambda p: (0 if v.props[p][1].startswith("VF ") else 1))
         res["failed"] = [(p, v.props[p][1]) for p in bad]
-        p0 = bad[0]
-        v2 = core.run_cbmc(gb, unwind=unwind, unwindset=uw, timeout=timeout or self.timeout, checks=checks,
-                           malloc_may_fail=malloc_may_fail, flags=flags, trace=True, props=[p0])
-        res["wall"] += v2.wall
-        if v2.status != "ok" or p0 not in v2.traces:
-            res["status"] = "inconclusive"
-            res["detail"] = "no trace for %s: %s" % (p0, v2.status)
-            return res
-        res["inputs"] = v2.traces[p0]
-        if not replay:
-            res["status"] = "violated-unreplayed"
-            return res
-        if replay_fn is not None:
-            rp = replay_fn(self, tag, cfile, defs, res["inputs"], res)
-        else:
-            rp = self.replay(tag, cfile, defs, res["inputs"], common, native_extra)
-        res["replay"] = rp
-        res["status"] = "violated" if rp["reproduced"] else "machinery"
-        if not rp["reproduced"]:
-            res["detail"] = "counterexample did not reproduce natively (%s): %s" % (res["failed"][0][1], rp["output"][-500:])
+        last = None
+        for p0 in bad[:4]:
+            v2 = core.run_cbmc(gb, unwind=unwind, unwindset=uw, timeout=timeout or self.timeout, checks=checks,
+                               malloc_may_fail=malloc_may_fail, flags=flags, trace=True, props=[p0])
+            res["wall"] += v2.wall
+            if v2.status != "ok" or p0 not in v2.traces:
+                last = ("inconclusive", "no trace for %s: %s" % (p0, v2.status))
+                continue
+            res["inputs"] = v2.traces[p0]
+            if not replay:
+                res["status"] = "violated-unreplayed"
+                return res
+            if replay_fn is not None:
+                rp = replay_fn(self, tag, cfile, defs, res["inputs"], res)
+            else:
+                rp = self.replay(tag, cfile, defs, res["inputs"], common, native_extra)
+            res["replay"] = rp
+            if rp["reproduced"]:
+                res["status"] = "violated"
+                res["failed"] = [(p0, v.props[p0][1])] + [x for x in res["failed"] if x[0] != p0]
+                return res
+            last = ("machinery", "counterexample did not reproduce natively (%s): %s" % (v.props[p0][1], rp["output"][-500:]))
+        res["status"], res["detail"] = last
         return res
 
     def replay(self, tag, cfile, defs, inputs, common, native_extra=()):
